@@ -56,6 +56,7 @@ void NODE_EVAL(char* sret, char* self, char* st);
 struct arr_node { struct node base; uint64_t m_loc; };
 int main(void) {
   static struct arr_node A; static char* a_children[1]; static struct BV observed[4];
+  __CPROVER_assert(sizeof(struct arr_node) == SZ_Inline_Array_Node, "C08: a literal node carries no state beyond its children and its call-site cache (nothing an evaluation could leave behind)");
   /* node 0 = Arg_List holding the elements 1..K */
   node_set_children(0, KE >= 1 ? 1 : -1, KE >= 2 ? 2 : -1, KE >= 3 ? 3 : -1, -1);
   A.base.identifier = AST_Inline_Array; A.base.text.p = A.base.text.buf; a_children[0] = (char*)&nodes[0];
@@ -78,6 +79,7 @@ int main(void) {
 void NODE_EVAL(char* sret, char* self, char* st);
 struct const_node { struct node base; struct BV m_value; };
 int main(void) {
+  __CPROVER_assert(sizeof(struct const_node) == SZ_Constant_Node, "C08: a constant node holds its value and nothing else");
   static struct const_node C; static struct bv_data cd; C.base.identifier = AST_Constant; C.base.text.p = C.base.text.buf; C.m_value.p = (char*)&cd; C.m_value.pn = 0;
   struct const_node before = C; static char state[SZ_Dispatch_State]; struct BV out = { 0, 0 };
   NODE_EVAL((char*)&out, (char*)&C, state);
@@ -98,6 +100,7 @@ void NODE_EVAL(char* sret, char* self, char* st);
 struct ad_node { struct node base; uint64_t m_loc; };
 int main(void) {
   static struct ad_node A; static char* a_children[2];
+  __CPROVER_assert(sizeof(struct ad_node) == SZ_Assign_Decl_Node, "C08: a declaration node carries no state beyond its children and its call-site cache (nothing an evaluation could leave behind)");
   A.base.identifier = AST_Assign_Decl; A.base.text.p = A.base.text.buf; a_children[0] = (char*)&nodes[1]; a_children[1] = (char*)&nodes[2];
   A.base.children.b = (char*)&a_children[0]; A.base.children.e = (char*)&a_children[2]; A.base.children.c = A.base.children.e;
   nodes[1].text.p = nodes[1].text.buf; nodes[1].text.n = 1; nodes[1].text.buf[0] = 'x';
@@ -133,6 +136,7 @@ struct map_node { struct node base; uint64_t m_loc; };
 int main(void) {
   /* M -> [node 0 (pair list)] ; node 0 -> pairs 1..KE ; pair i -> [key node 3+2i-... , value node] : key of pair i = node 2+2i-1 ... laid out as: pair i (1..KE) children = nodes[KE+2i-1], nodes[KE+2i] */
   static struct map_node M; static char* m_children[1];
+  __CPROVER_assert(sizeof(struct map_node) == SZ_Inline_Map_Node, "C08: a literal node carries no state beyond its children and its call-site cache (nothing an evaluation could leave behind)");
   node_set_children(0, KE >= 1 ? 1 : -1, KE >= 2 ? 2 : -1, -1, -1);
   for (int i = 1; i <= KE; i++) node_set_children(i, KE + 2 * i - 1, KE + 2 * i, -1, -1);
   M.base.identifier = AST_Inline_Map; M.base.text.p = M.base.text.buf; m_children[0] = (char*)&nodes[0];
